@@ -198,6 +198,63 @@ theorem required_handling (st : Style) (o : Opts) (req : List (List Char))
   refine List.mem_map.mpr ⟨p, hp, ?_⟩
   simp [hr, hc]
 
+/-- `required` at the allOf level (a property-less member `{"required": […]}` of `allOf`), in terms of
+ORIGINAL names: for EVERY field-name resolver `nm` — whatever Python name a member gets (`first-name` ↦
+`first_name`, `class` ↦ `class_`, snake-casing, …) — a member whose JSON name is listed becomes a
+required field of the class; it keeps its Python name and its JSON name. Unconditional: also a
+`const` member of v1-style output (the mark is applied after the field was built). -/
+theorem allOf_required_handling (st : Style) (o : Opts) (nm : List Char → List Char)
+    (req xreq : List (List Char)) (props : List (List Char × Schema)) (p : List Char × Schema)
+    (hp : p ∈ props) (hr : p.1 ∈ xreq) :
+    ∃ f ∈ markRequired xreq (parseFields st o nm req props),
+      f.name = nm p.1 ∧ f.originalName = some p.1 ∧ f.required = true ∧
+      f.cons = fieldCons st o p.2 ∧ f.ty = tr st o .plain p.2 := by
+  refine ⟨_, List.mem_map.mpr ⟨_, List.mem_map.mpr ⟨p, hp, rfl⟩, rfl⟩, ?_⟩
+  simp [PField.key, hr]
+
+/-- …and that is what stage 1 (`tr`, keyed by JSON name) says: the own fields of the class generated
+for `allOf[refs…, {properties: props, required: req}, {required: xreq}]` are the fields above with the
+Python names forgotten, for every resolver; hence the member is a required field of the IR. -/
+theorem allOf_required_in_ir (st : Style) (o : Opts) (nm : List Char → List Char)
+    (refs req xreq : List (List Char)) (props : List (List Char × Schema)) (p : List Char × Schema)
+    (hp : p ∈ props) (hr : p.1 ∈ xreq) :
+    tr st o .top (.allOf refs props req xreq) =
+      .derived refs ((markRequired xreq (parseFields st o nm req props)).map PField.toIR) .unset ∧
+    (p.1, true, fieldCons st o p.2, tr st o .plain p.2) ∈ markReq xreq (trProps st o req props) := by
+  refine ⟨by simp only [tr, allOf_fields_refine], ?_⟩
+  rw [markReq_trProps]
+  refine List.mem_map.mpr ⟨p, hp, ?_⟩
+  simp [hr]
+
+/-- the resolver of the non-vacuity example and of the witness below: `first-name` ↦ `first_name` -/
+def demoNm (n : List Char) : List Char := n.map (fun c => if c == '-' then '_' else c)
+
+/-- non-vacuity: a member that IS renamed, named by an allOf-level `required` -/
+example : demoNm "first-name".toList = "first_name".toList ∧ demoNm "first-name".toList ≠ "first-name".toList ∧
+    ((markRequired ["first-name".toList]
+      (parseFields .v2 {} demoNm [] [("first-name".toList, .scalar .string false {})])).map
+        (fun f => (f.name, f.required))) = [("first_name".toList, true)] := by decide +kernel
+
+/-- WITNESS that the key matters: looking the collected names up by the PYTHON name (the variant
+`markRequiredByName`) leaves the renamed member optional — the statement above is false for it. -/
+theorem required_by_python_name_loses_renamed :
+    ((markRequiredByName ["first-name".toList]
+      (parseFields .v2 {} demoNm [] [("first-name".toList, .scalar .string false {})])).map
+        (fun f => (f.name, f.required))) = [("first_name".toList, false)] ∧
+    ¬ (∀ (nm : List Char → List Char) (xreq : List (List Char)) (props : List (List Char × Schema))
+        (p : List Char × Schema), p ∈ props → p.1 ∈ xreq →
+        ∃ f ∈ markRequiredByName xreq (parseFields .v2 {} nm [] props),
+          f.originalName = some p.1 ∧ f.required = true) := by
+  refine ⟨by decide +kernel, ?_⟩
+  intro h
+  obtain ⟨f, hf, ho, hr⟩ := h demoNm ["first-name".toList]
+    [("first-name".toList, .scalar .string false {})] ("first-name".toList, .scalar .string false {})
+    (by simp) (by simp)
+  simp only [markRequiredByName, parseFields, List.map_cons, List.map_nil, List.mem_singleton] at hf
+  subst hf
+  revert hr
+  decide +kernel
+
 /-- REFUTATION (D11): under `field_constraints`, `additionalProperties: {integer, minimum 0}` accepts `{"k": -1}` -/
 theorem violation_accepted_D11 : ¬ ViolationRejected := by
   intro h
